@@ -266,7 +266,7 @@ def handle (j : Json) : R Json := do
     return Json.mkObj [
       ("model", Json.mkObj [("datainfo", exToJson jvalToJson ex), ("tree2", exToJson dinfoToJson rebuilt),
         ("datainfo2", exToJson jvalToJson ex2), ("classes", skelToJson (rebuildC c).skel)]),
-      ("wf", .bool t.erase.wfB), ("aligned", .bool t.exportableB),
+      ("wf", .bool t.erase.wfB), ("aligned", .bool t.exportableB), ("snappable", .bool (DInfo.snapLimits t).isSome),
       ("judge", jstrs (judgeRebuilt t (← derivedOfJson impl)))]
   | "get" =>
     let d ← jvalOfJson (← fld j "json")
@@ -284,7 +284,7 @@ def handle (j : Json) : R Json := do
     return Json.mkObj [
       ("model", Json.mkObj [("tree2", exToJson dinfoToJson c), ("shared", jstrs (Heap.sharedKinds consts t)),
         ("classes", skelToJson (copyC ct).skel)]),
-      ("wf", .bool t.erase.wfB), ("aligned", .bool t.exportableB),
+      ("wf", .bool t.erase.wfB), ("aligned", .bool t.exportableB), ("snappable", .bool (DInfo.snapLimits t).isSome),
       ("judge", jstrs (judgeRebuilt t (← derivedOfJson impl) ++ judgeMutation m))]
   | "compat" =>
     let a ← ctypeOfJson (← fld j "a")
@@ -375,6 +375,8 @@ def handle (j : Json) : R Json := do
     return Json.mkObj [
       ("model", Json.mkObj [("datainfo", exToJson jvalToJson ex), ("rebuild", showCmd rebuilt), ("copy", showCmd (copyCommand consts c))]),
       ("aligned", .bool ((c.argument.map DInfo.exportableB).getD true && (c.result.map DInfo.exportableB).getD true)),
+      ("snappable", .bool ((c.argument.map (fun t => (DInfo.snapLimits t).isSome)).getD true &&
+        (c.result.map (fun t => (DInfo.snapLimits t).isSome)).getD true)),
       ("judge", jstrs ((judgeCmdDerived c (← obs "rebuild")).map ("rebuild:" ++ ·) ++ (judgeCmdDerived c (← obs "copy")).map ("copy:" ++ ·)))]
   | "getcmd" =>
     let d ← jvalOfJson (← fld j "json")
